@@ -15,7 +15,8 @@ FIELDS = ["dmr_id", "callsign", "serial", "address_in", "address_out", "address_
 # goes to the member; the two must never be confused
 DYN = ["k1", "k2", "p2p_is_registered", "rx_freq", "serial", "callsign"]
 # the last two are what asyncio hands to datagram_received for IPv6 peers: (host, port, flowinfo, scope_id)
-ADDRS = [["10.0.0.1", 50000], ["10.0.0.1", 50002], ["10.0.0.2", 50000], ["10.0.0.2", 50002], ["fe80::1", 50000, 0, 0], ["fe80::1", 50000, 0, 3]]
+ADDRS = [["10.0.0.1", 50000], ["10.0.0.1", 50002], ["10.0.0.2", 50000], ["10.0.0.2", 50002], ["fe80::1", 50000, 0, 0], ["fe80::1", 50000, 0, 3],
+         ["110.0.0.1", 50000], ["0.0.0.1", 50000], "EMPTY"]  # textual suffix / prefix relatives of the first IP; the library's own ADDRESS_EMPTY constant
 DEFAULTS = {"dmr_id": None, "callsign": "", "serial": "", "address_out": ("", 0), "address_nat": ("", 0),
             "snmp_enabled": True, "nat_enabled": False}
 
@@ -29,8 +30,18 @@ def tag(v):
 def untag(v):
     """JSON value -> python value used in calls ({'addr': [...]} -> tuple)"""
     if isinstance(v, dict) and "addr" in v:
-        return tuple(v["addr"])
+        return addr_of(v["addr"])
     return v
+
+
+def addr_of(a):
+    """JSON address -> what is handed to the storage: a tuple, or the library's ADDRESS_EMPTY constant OBJECT for "EMPTY" (an application
+    that has no address yet passes that very object around)"""
+    if a == "EMPTY":
+        from okdmr.dmrlib.storage import ADDRESS_EMPTY
+
+        return ADDRESS_EMPTY
+    return tuple(a)
 
 
 def real_patch(p):
@@ -142,7 +153,7 @@ class C20(Check):
         s = streams["sched"]
         nclients = k.choice([1, 2, 2, 3])
         n = k.choice([1, 2, 3, 5, 8, 13, 21, 34, 55, 89, 144, 233, 300])
-        naddr = k.choice([1, 2, 4, 6, 6])
+        naddr = k.choice([1, 2, 4, 6, 6, 9, 9])
         weights = {o: k.choice([0, 1, 2, 4]) for o in
                    ["match_incoming", "save", "patch", "attr_set", "attr_get", "delete_attr", "match_attr", "match_ip", "match_uuid",
                     "held_patch", "held_attr", "len_all"]}
@@ -171,7 +182,7 @@ class C20(Check):
                 op["rec"] = w.randrange(6)  # value taken from this model record (hit) ...
                 op["miss"] = w.random() < 0.2  # ... or a value nobody has
             elif o == "match_ip":
-                op["ip"] = w.choice(["10.0.0.1", "10.0.0.2", "10.0.0.9"])
+                op["ip"] = w.choice(["10.0.0.1", "10.0.0.2", "10.0.0.9", "110.0.0.1", "0.0.0.1", "", "fe80::1", "1"])
             elif o == "match_uuid":
                 op["rec"] = w.randrange(6)
                 op["unknown"] = w.random() < 0.1
@@ -270,7 +281,7 @@ class C20(Check):
             raised = None
             try:
                 if o == "match_incoming":
-                    addr = tuple(op["addr"])
+                    addr = addr_of(op["addr"])
                     p = real_patch(op["patch"]) if op.get("patch") is not None else None
                     m = mfind(lambda x: x["s"]["address_in"] == addr)
                     kw = {} if p is None else {"patch": p}
